@@ -403,12 +403,49 @@ mod param {
 
     use super::*;
 
-    struct MainTraitParamBoundResolver<'a>(IndexSet<&'a syn::Ident>, Vec<syn::WherePredicate>);
+    /// Params of the main trait that are given a type which is not just a param of the impl:
+    /// * `.0` types that mention no param of the impl, the compiler checks their bounds itself
+    /// * `.2` types built from params of the impl, bounds are kept (`?Sized` can't be written on them)
+    struct MainTraitParamBoundResolver<'a>(
+        IndexSet<&'a syn::Ident>,
+        Vec<syn::WherePredicate>,
+        IndexSet<&'a syn::Ident>,
+    );
 
     impl<'a> MainTraitParamBoundResolver<'a> {
-        fn new(concrete: impl IntoIterator<Item = &'a syn::Ident>) -> Self {
-            Self(concrete.into_iter().collect(), Vec::new())
+        fn new(
+            concrete: impl IntoIterator<Item = &'a syn::Ident>,
+            composite: impl IntoIterator<Item = &'a syn::Ident>,
+        ) -> Self {
+            Self(
+                concrete.into_iter().collect(),
+                Vec::new(),
+                composite.into_iter().collect(),
+            )
         }
+    }
+
+    fn mentions_impl_param(ty: &syn::Type) -> bool {
+        struct Visitor(bool);
+
+        impl Visit<'_> for Visitor {
+            fn visit_ident(&mut self, node: &syn::Ident) {
+                self.0 |= node.to_string().starts_with("_ŠČ");
+            }
+        }
+
+        let mut visitor = Visitor(false);
+        visitor.visit_type(ty);
+        visitor.0
+    }
+
+    fn is_impl_param(ty: &syn::Type) -> bool {
+        if let syn::Type::Path(ty) = ty {
+            let ident = ty.path.get_ident().map(ToString::to_string);
+            return ty.qself.is_none() && ident.is_some_and(|ident| ident.starts_with("_ŠČ"));
+        }
+
+        false
     }
 
     impl Visit<'_> for MainTraitParamBoundResolver<'_> {
@@ -425,6 +462,27 @@ mod param {
             let ty = &node.ident;
 
             if self.0.contains(&ty) {
+                return;
+            }
+
+            if self.2.contains(&ty) {
+                let bounds = node
+                    .bounds
+                    .iter()
+                    .filter(|bound| {
+                        !matches!(bound, syn::TypeParamBound::Trait(syn::TraitBound {
+                            modifier: syn::TraitBoundModifier::Maybe(_),
+                            ..
+                        }))
+                    })
+                    .collect::<syn::punctuated::Punctuated<_, syn::Token![+]>>();
+
+                if !bounds.is_empty() {
+                    self.1.push(syn::parse_quote! {
+                        #ty: #bounds
+                    });
+                }
+
                 return;
             }
 
@@ -510,20 +568,16 @@ mod param {
                     });
 
                 let mut param_resolver = MainTraitParamBoundResolver::new(
-                    type_params.iter().filter_map(|(param, substitute)| {
-                        if let syn::Type::Path(ty) = substitute {
-                            if ty.qself.is_some() {
-                                return Some(param);
-                            }
-
-                            let ident = ty.path.get_ident().map(ToString::to_string);
-                            if ident.map(|ident| ident.starts_with("_ŠČ")).unwrap_or(false) {
-                                return None;
-                            }
-                        }
-
-                        Some(param)
-                    }),
+                    type_params
+                        .iter()
+                        .filter(|(_, substitute)| !mentions_impl_param(substitute))
+                        .map(|(param, _)| param),
+                    type_params
+                        .iter()
+                        .filter(|(_, substitute)| {
+                            mentions_impl_param(substitute) && !is_impl_param(substitute)
+                        })
+                        .map(|(param, _)| param),
                 );
                 param_resolver.visit_generics(&main_trait.generics);
                 main_trait.generics.params = syn::punctuated::Punctuated::new();
